@@ -13,8 +13,53 @@ def run(ctx):
     engine_corr.campaign(ctx, {"C10"})
     planlevel.plan_campaign(ctx, {"C10"})
     overlap(ctx)
+    stale_check_limit(ctx)
     import retry_corr
     retry_corr.run_retry(ctx)       # real create_retry / run(retry=...) vs Engine/Retry.v
+
+
+def stale_check_limit(ctx):
+    """stale_check_max_workers bounds the concurrent modified-time queries (and that many do overlap) independently of max_workers."""
+    import datetime as dt
+    import threading
+    import time
+    uberjob = core.use_repo()
+    for max_workers, stale_workers in ((6, 2), (1, 4), (3, 3), (2, None), (None, 3)):
+        lock, infl, peak = threading.Lock(), [0], [0]
+
+        class Slow(uberjob.ValueStore):
+            def __init__(self):
+                self.v = 1
+
+            def read(self):
+                return self.v
+
+            def write(self, v):
+                self.v = v
+
+            def get_modified_time(self):
+                with lock:
+                    infl[0] += 1
+                    peak[0] = max(peak[0], infl[0])
+                time.sleep(0.03)
+                with lock:
+                    infl[0] -= 1
+                return dt.datetime(2020, 1, 1)
+        p, r = uberjob.Plan(), uberjob.Registry()
+        xs = []
+        for i in range(8):
+            x = p.call(lambda i=i: i)
+            r.add(x, Slow())
+            xs.append(x)
+        uberjob.run(p, registry=r, output=xs, max_workers=max_workers, stale_check_max_workers=stale_workers, progress=None)
+        limit = stale_workers if stale_workers is not None else max_workers
+        ctx.case(("stale-check-limit", max_workers, stale_workers))
+        rep = {"max_workers": max_workers, "stale_check_max_workers": stale_workers, "peak_concurrent_get_modified_time": peak[0]}
+        if limit is not None and peak[0] > limit:
+            ctx.fail("stale-check:too-many", "%d modified-time queries ran concurrently with stale_check_max_workers=%r, max_workers=%r" % (peak[0], stale_workers, max_workers), rep)
+        if limit is not None and limit > 1 and peak[0] < min(limit, 8):
+            # rule out a slow machine: the queries sleep 30 ms each, 8 of them
+            ctx.fail("stale-check:not-parallel", "only %d modified-time queries overlapped with stale_check_max_workers=%r, max_workers=%r" % (peak[0], stale_workers, max_workers), rep)
 
 
 def overlap(ctx):
@@ -59,11 +104,12 @@ def overlap(ctx):
         if shape == "independent":
             xs = [p.call(f, i) for i in range(w)]
         elif shape == "fan-out":
-            root = p.call(lambda: 0)
+            # the root takes long enough for the other workers to be idle (blocked in queue.get) when the fan-out happens
+            root = p.call(lambda: __import__("time").sleep(0.15) or 0)
             xs = [p.call(f, i, root) for i in range(w)]
         else:
             reg = uberjob.Registry()
-            root = p.call(lambda: 0)
+            root = p.call(lambda: __import__("time").sleep(0.15) or 0)
             xs = [p.call(lambda r, i=i: i, root) for i in range(w)]
             for x in xs:
                 reg.add(x, Mem(bar))
